@@ -7,6 +7,8 @@ mod ctl;
 mod ops;
 mod parse;
 mod regs;
+#[cfg(feature = "serde")]
+mod tokfmt;
 mod types;
 
 use ops::{BufW, Cx};
@@ -173,8 +175,8 @@ fn exec(regs: &mut Regs, cx: &mut Cx, op: &Op) -> (String, Vec<usize>, Vec<usize
                     ("()".into(), vec![i, *dst], vec![])
                 }
                 #[cfg(feature = "serde")]
-                MapOp::Serde(dst) => {
-                    let enc = with_map!(&regs.m[i], x => ops::serde_rt::encode_map(&x.c));
+                MapOp::Serde(dst, fmt) => {
+                    let enc = with_map!(&regs.m[i], x => ops::serde_rt::encode_map(&x.c, *fmt));
                     let Some((ann, ent, bytes)) = enc else {
                         return ("[encode-error]".into(), vec![i, *dst], vec![]);
                     };
@@ -198,7 +200,7 @@ fn exec(regs: &mut Regs, cx: &mut Cx, op: &Op) -> (String, Vec<usize>, Vec<usize
                     (format!("[{},{},{}]", ann, ent, st), vec![i, *dst], vec![])
                 }
                 #[cfg(not(feature = "serde"))]
-                MapOp::Serde(dst) => ("[unsupported]".into(), vec![i, *dst], vec![]),
+                MapOp::Serde(dst, _) => ("[unsupported]".into(), vec![i, *dst], vec![]),
                 MapOp::Eq(o) => {
                     let a = &regs.m[i];
                     let b = &regs.m[*o];
@@ -281,8 +283,8 @@ fn exec(regs: &mut Regs, cx: &mut Cx, op: &Op) -> (String, Vec<usize>, Vec<usize
                     ("()".into(), vec![], vec![i])
                 }
                 #[cfg(feature = "serde")]
-                SetOp::Serde(dst) => {
-                    let enc = with_set!(&regs.s[i], x => ops::serde_rt::encode_set(&x.c));
+                SetOp::Serde(dst, fmt) => {
+                    let enc = with_set!(&regs.s[i], x => ops::serde_rt::encode_set(&x.c, *fmt));
                     let Some((ann, ent, bytes)) = enc else {
                         return ("[encode-error]".into(), vec![], vec![i, *dst]);
                     };
@@ -306,7 +308,7 @@ fn exec(regs: &mut Regs, cx: &mut Cx, op: &Op) -> (String, Vec<usize>, Vec<usize
                     (format!("[{},{},{}]", ann, ent, st), vec![], vec![i, *dst])
                 }
                 #[cfg(not(feature = "serde"))]
-                SetOp::Serde(dst) => ("[unsupported]".into(), vec![], vec![i, *dst]),
+                SetOp::Serde(dst, _) => ("[unsupported]".into(), vec![], vec![i, *dst]),
                 SetOp::ExtendFrom(o) if *o != i => {
                     let j = *o;
                     let (dst, src) = if i < j {
@@ -381,8 +383,8 @@ fn exec(regs: &mut Regs, cx: &mut Cx, op: &Op) -> (String, Vec<usize>, Vec<usize
 fn touched(op: &Op) -> (Vec<usize>, Vec<usize>) {
     match op {
         Op::Map(i, MapOp::CloneTo(d)) | Op::Map(i, MapOp::CloneFrom(d)) => (vec![*i, *d], vec![]),
-        Op::Map(i, MapOp::Serde(d)) => (vec![*i, *d], vec![]),
-        Op::Set(i, SetOp::Serde(d)) => (vec![], vec![*i, *d]),
+        Op::Map(i, MapOp::Serde(d, _)) => (vec![*i, *d], vec![]),
+        Op::Set(i, SetOp::Serde(d, _)) => (vec![], vec![*i, *d]),
         Op::Map(i, MapOp::Eq(o)) => (vec![*i, *o], vec![]),
         Op::Map(i, _) => (vec![*i], vec![]),
         Op::Set(i, SetOp::CloneTo(d)) | Op::Set(i, SetOp::CloneFrom(d)) => (vec![], vec![*i, *d]),
